@@ -373,7 +373,7 @@ Lemma reorg_unfold : forall fuel st old new,
       let number := match nc with _ :: x1 :: _ => hnum x1 | _ => hnum c end in
       match del_canon_from fuel (canon st2) (number + 1) with
       | None => Err EOutOfFuel
-      | Some c' => Ok (set_canon st2 c', removed ++ added)
+      | Some c' => Ok (set_canon st2 c', removed ++ added ++ [EvPurge])
       end
     end
   end.
@@ -484,10 +484,10 @@ Proof.
     destruct (del_canon_from fuel cc ii) as [c'|] eqn:ED; [|discriminate] end.
   inversion H; subst st' evs; clear H.
   exists c, oc, nc. repeat split; auto.
-  - rewrite removed_logs_app, removed_of_removed, removed_of_added, app_nil_r, chunk_concat.
-    cbn. apply concat_map_flat.
-  - rewrite added_logs_app, added_of_removed, added_of_added, chunk_concat.
-    cbn. apply concat_map_flat.
+  - rewrite !removed_logs_app, removed_of_removed, removed_of_added, chunk_concat.
+    cbn. rewrite !app_nil_r. apply concat_map_flat.
+  - rewrite !added_logs_app, added_of_removed, added_of_added, chunk_concat.
+    cbn. rewrite !app_nil_r. apply concat_map_flat.
 Qed.
 
 (* ---- termination of reorg ---- *)
